@@ -5,6 +5,7 @@ and the test suite passes with the change, (3) the demonstration fails with the 
 Then removes the build directory.  Prints a JSON summary; exit 0 only if everything was confirmed."""
 import json, os, shutil, subprocess, sys, re
 wt, sid = sys.argv[1], sys.argv[2]
+backend = sys.argv[3] if len(sys.argv) > 3 else None    # tasking backend the DEMO needs (tests always run on the default build)
 dst = os.path.join(os.path.dirname(os.path.dirname(os.path.abspath(__file__))), "seeded", sid)
 def sh(cmd, cwd=wt, timeout=3600):
     p = subprocess.run(cmd, shell=True, cwd=cwd, stdout=subprocess.PIPE, stderr=subprocess.STDOUT, timeout=timeout)
@@ -17,12 +18,18 @@ res["confined_to_rkcommon"] = all(n.startswith("rkcommon/") for n in names.split
 meta = json.load(open(os.path.join(wt, "_seed", "meta.json")))
 readme = open(os.path.join(wt, "_seed", "README.txt")).read() if os.path.exists(os.path.join(wt, "_seed", "README.txt")) else ""
 b = os.path.join(wt, "_b")
-def build():
-    return sh("cmake -G Ninja -S . -B _b -DCMAKE_BUILD_TYPE=RelWithDebInfo -DCMAKE_CXX_FLAGS=-Wno-error > /dev/null && cmake --build _b -j 8 2>&1 | tail -3")
+def build(be=None):
+    extra = (" -DRKCOMMON_TASKING_SYSTEM=%s -DBUILD_TESTING=OFF" % be) if be else ""
+    return sh("cmake -G Ninja -S . -B _b -DCMAKE_BUILD_TYPE=RelWithDebInfo -DCMAKE_CXX_FLAGS=-Wno-error%s > /dev/null && cmake --build _b -j 8 2>&1 | tail -3" % extra)
 rc, out = build()
 res["build_with_change"] = rc == 0
 rc, out = sh("ctest --test-dir _b -j4 --timeout 900 2>&1 | tail -5")
 res["tests_pass_with_change"] = rc == 0 and "100% tests passed" in out
+if backend:
+    shutil.rmtree(b, ignore_errors=True)
+    rc, out = build(backend)
+    res["demo_backend"] = backend
+    res["build_with_change_" + backend] = rc == 0
 # demo build command: first line in README / meta commands that mentions g++ and demo
 cmds = [l.strip() for l in (readme.splitlines() + meta.get("commands", [])) if "g++" in l and "demo" in l]
 democmd = cmds[0] if cmds else None
@@ -47,7 +54,7 @@ if democmd:
     res["demo_fails_with_change"] = (f1 == 3)
     res["demo_output_with_change"] = o1
     sh("git stash")
-    build()
+    build(backend)
     f0, o0 = run_demo(3)
     res["demo_passes_without_change"] = (f0 == 0)
     res["demo_output_without_change"] = o0
